@@ -78,6 +78,12 @@ func bigOf(s string) *big.Int {
 }
 
 // optional sdk.Int: "-" is the nil Int
+// nanoseconds since the Unix epoch without the int64 wrap-around of time.UnixNano (dates after 2262)
+func nanosOf(t time.Time) string {
+	n := new(big.Int).Mul(big.NewInt(t.Unix()), big.NewInt(1_000_000_000))
+	return n.Add(n, big.NewInt(int64(t.Nanosecond()))).String()
+}
+
 func intTok(s string) sdkmath.Int {
 	if s == "-" {
 		return sdkmath.Int{}
@@ -141,6 +147,9 @@ type Gen struct {
 	r     *rand.Rand
 	lines []string
 	stats map[string]int
+	// set by composing generators (genesis family) to steer a one-scenario sub-generator
+	shape      int  // offset into the directed shapes of the sub-generator
+	forceDenom bool // vest: use a non-default vesting denom
 }
 
 func newGen(seed int64) *Gen {
